@@ -20,6 +20,7 @@ mod c10;
 mod c11;
 mod c12;
 mod c13;
+mod c14;
 mod c15;
 mod c16;
 mod swz_calls;
@@ -52,6 +53,7 @@ fn main() {
         "C07" => { c07::cases(&mut ctx); c07::preds(&mut ctx); }
         "C08" => { c08::cases(&mut ctx); c08::preds(&mut ctx); }
         "C10" => { c10::cases(&mut ctx); c10::preds(&mut ctx); }
+        "C14" => { c14::cases(&mut ctx); c14::preds(&mut ctx); }
         "C15" => { c15::cases(&mut ctx); c15::preds(&mut ctx); }
         "C16" => { c16::cases(&mut ctx); c16::preds(&mut ctx); }
         "C17" => { c17::cases(&mut ctx); c17::preds(&mut ctx); }
